@@ -85,6 +85,24 @@ pub fn unit_parts_of_value(v: &Value) -> UnitParts {
     out
 }
 
+/// The structure of a unit (which units, which powers, which prefixes) is read from the CBOR
+/// encoding of `Compound`, the only structural view the public API offers. A build that encodes
+/// units differently would make every unit look empty; that must stop the run as a machinery
+/// failure, never produce verdicts.
+pub fn selfcheck() -> Result<(), String> {
+    let probe = |s: &str| -> Result<UnitParts, String> { s.parse::<Compound>().map(|c| unit_parts(&c)).map_err(|_| format!("`{s}` does not parse as a unit")) };
+    let a = probe("km/s^2")?;
+    let mut shape: Vec<(i32, i32)> = a.iter().map(|p| (p.1, p.2)).collect();
+    shape.sort();
+    let b = probe("N*m")?;
+    let ok = shape == vec![(-2, 0), (1, 3)] && b.len() == 2 && b.iter().any(|p| matches!(p.0, UKey::Derived(_))) && b.iter().any(|p| matches!(p.0, UKey::Base(_)));
+    if ok {
+        Ok(())
+    } else {
+        Err(format!("the harness cannot read the structure of a unit from this build's CBOR encoding of Compound (km/s^2 reads as {a:?}, N*m as {b:?}); unit-observing checks cannot run"))
+    }
+}
+
 pub fn res_of(r: Result<Numeric, anything::Error>) -> Res {
     match r {
         Ok(n) => Res::Ok {
